@@ -45,7 +45,7 @@ CHECKS = {
  "C14": ("model_checking", "explicit-state breadth-first search over statement histories on the real engine with a catalog reference model",
    "BFS over all histories of DDL/DML/SET statements (13 quick / 26 thorough statement forms incl. IF [NOT] EXISTS, OR REPLACE, CTAS [IF NOT EXISTS], INSERT..SELECT from the target, statements failing at bind and at run time) issued by two sessions of one engine, to depth 4 (quick) / 5 (thorough); states are canonical observations (schemas, tables, views, DESCRIBE, sorted contents, SHOW) of both sessions and are deduplicated by hash; every transition re-executes the history on fresh sessions of the implementation and compares outcome class, reported row count, the acting session's observation with the model and the other session's observation with its previous one.",
    "Canonical form drops only what the property cannot observe (row order); the merge soundness is cross-checked by re-running depth 2 without merging. Interleavings of parallel appends are C04's shapes insert-select / ctas / tables-self-insert."),
- "C15": ("exploration", "bounded exhaustive enumeration of statement texts (token sequences, single-token mutations, nesting depths, ill-typed calls)",
+ "C15": ("fault_enumeration", "bounded exhaustive enumeration of statement texts (token sequences, single-token mutations, nesting depths, ill-typed calls)",
    "All token sequences of length <= 4 (quick) / 5 (thorough) over a 28-token alphabet; 55 corpus statements under every single-token deletion / duplication / swap / replacement; 14 nesting families (parentheses, unary chains, CASE, subqueries, CTE chains, joins, IN lists, ...) at depths 2^0..2^13; every scalar and aggregate signature on ill-typed and extreme arguments; statements that fail at run time; after every statement the same session must still answer a probe query and a failed statement must leave the catalog unchanged. Outcome must be rows or error - a panic, hang, abort (stack overflow) or a poisoned session is a violation.",
    "Process-killing statements are isolated by the guard supervisor (child process + watchdog) and attributed by in-flight slots; the depth families are keyed by family, not by the exact depth where the stack ends."),
  "C16": ("exploration", "bounded exhaustive enumeration (the statement / file / fault spaces of the other checks) re-executed on an AddressSanitizer build of engine and harness; a sanitizer report on any enumerated execution is the violation",
@@ -57,7 +57,7 @@ CHECKS = {
  "C18": ("exploration", "bounded exhaustive enumeration of statements with a four-way schema agreement oracle",
    "For the C01 term space, every scalar signature (literal and column context), every unary aggregate (plain / grouped), UNION / CASE / coalesce over all ordered pairs of 18 types, decimal arithmetic over (p,s) x (p,s), catalog statements: DESCRIBE <stmt>, the announced output schema, the datatype of every returned batch and the variant of every value (incl. decimal precision / scale, timestamp unit) must agree pairwise.",
    "Agreement oracle only (which of the disagreeing sides is right is not decided)."),
- "C19": ("exploration", "bounded exhaustive fault enumeration (every truncation, byte substitution, metadata lie and I/O error position) on small valid files",
+ "C19": ("fault_enumeration", "bounded exhaustive fault enumeration (every truncation, byte substitution, metadata lie and I/O error position) on small valid files",
    "26 valid pqgen files (one per type x encoding x page version x codec class) and 8 CSV files: every truncation length, every single-byte substitution by up to six values, every integer field of footer and page headers replaced by seven lies (0, 1, -1, value+-1, 2^31-1, 2^63-1), an injected I/O error / short read / pending at every read call; the statement must return rows or an error - no panic, abort, hang (> 3 s inside one poll) or allocation blow-up.",
    "After the first blow-up of a fault group (same file region and substitution) the remaining faults of the group are not fed (reported in the evidence); known reader panics are listed by panic site and region."),
  "C20": ("exploration", "bounded exhaustive enumeration of (string function call, subject) and (pattern, subject) pairs vs character-level reference implementations",
